@@ -31,13 +31,14 @@ type parseOut struct {
 }
 
 type parseReply struct {
-	Plain   parseOut `json:"plain"`
-	Chunked parseOut `json:"chunked"`
-	Offset  parseOut `json:"offset"`
-	Fault   parseOut `json:"fault"`
-	FaultAt int      `json:"faultAt"`
-	Plan    []int    `json:"plan"`
-	Streams int64    `json:"streams"` // bytes written to fd 1/2 during the calls
+	Plain     parseOut `json:"plain"`
+	Chunked   parseOut `json:"chunked"`
+	Offset    parseOut `json:"offset"`
+	Fault     parseOut `json:"fault"` // the first delivery mode of the fault that did not yield an error (or the last one)
+	FaultMode int      `json:"faultMode"`
+	FaultAt   int      `json:"faultAt"`
+	Plan      []int    `json:"plan"`
+	Streams   int64    `json:"streams"` // bytes written to fd 1/2 during the calls
 	// C09
 	Reparse  parseOut `json:"reparse"`  // parse of Sprint(op)
 	Reparse2 string   `json:"reparse2"` // Sprint of the reparsed operation
@@ -109,12 +110,20 @@ func safeParse(f func() (mpath.Operation, error)) (out parseOut) {
 
 // planReader delivers the data in the chunk sizes of plan (0 = an empty read), then EOF;
 // failAt >= 0 makes the read that would deliver byte failAt return an error instead.
+// mode says how the fault is delivered (io.Reader allows all of them):
+//
+//	0  the bytes before the fault, then (0, err) on every later Read
+//	1  the last readable bytes TOGETHER with the error, then io.EOF
+//	2  the last readable bytes together with the error, the error again on every later Read
+//	3  (0, err) once, then io.EOF
 type planReader struct {
 	data   []byte
 	pos    int
 	plan   []int
 	step   int
 	failAt int
+	mode   int
+	failed bool
 }
 
 var errInjected = errors.New("injected read fault")
@@ -128,14 +137,27 @@ func (r *planReader) Read(p []byte) (int, error) {
 	if n > len(p) {
 		n = len(p)
 	}
+	if r.failed {
+		if r.mode == 1 || r.mode == 3 {
+			return 0, io.EOF
+		}
+		return 0, errInjected
+	}
 	if r.failAt >= 0 && r.pos+n > r.failAt {
-		// deliver the bytes before the fault, then fail
 		k := r.failAt - r.pos
+		if k > len(p) {
+			k = len(p)
+		}
 		if k > 0 {
 			copy(p, r.data[r.pos:r.pos+k])
 			r.pos += k
-			return k, nil
+			if r.mode == 0 || r.mode == 3 || r.pos < r.failAt {
+				return k, nil // the fault comes with the next Read
+			}
+			r.failed = true
+			return k, errInjected
 		}
+		r.failed = true
 		return 0, errInjected
 	}
 	if r.pos >= len(r.data) {
@@ -242,9 +264,15 @@ func parseJob(payload string) string {
 	})
 	rep.FaultAt = faultAt
 	if faultAt >= 0 {
-		rep.Fault = safeParse(func() (mpath.Operation, error) {
-			return mpath.ParseReadSeeker(&planReader{data: data, plan: plan, failAt: faultAt})
-		})
+		for mode := 0; mode < 4; mode++ {
+			rep.Fault = safeParse(func() (mpath.Operation, error) {
+				return mpath.ParseReadSeeker(&planReader{data: data, plan: plan, failAt: faultAt, mode: mode})
+			})
+			rep.FaultMode = mode
+			if rep.Fault.Class != "err" {
+				break
+			}
+		}
 	}
 	// C09: print and parse again
 	if rep.Plain.Class == "op" && plainOp != nil {
